@@ -12,6 +12,8 @@ import json, os, shutil, subprocess, sys, tempfile
 
 HERE = os.path.dirname(os.path.dirname(os.path.abspath(__file__)))
 REPO = os.environ.get("VERIF_REPO", "/repo")
+RS_TARGET = os.environ.get("VERIF_MUT_RS_TARGET") or "/tmp/ts-verif-mut-rs-target-%d" % os.getpid()
+WITNESS_TARGET = "/tmp/ts-verif-mut-witness-target-%d" % os.getpid()
 
 
 def claimed():
@@ -30,7 +32,7 @@ def run_one(d, props, rs_facts):
         files = [l[6:].strip() for l in open(patch) if l.startswith("+++ b/")]
         c_only = all(f.startswith("lib/src/") or f.startswith("lib/include/") for f in files)
         env = dict(os.environ, VERIF_REPO=scratch, VERIF_OUT=scratch + "/.out", VERIF_MUTANT="1", VERIF_CACHE=scratch + "/.cache",
-                   VERIF_RS_TARGET="/tmp/ts-verif-mut-rs-target", VERIF_WITNESS_TARGET="/tmp/ts-verif-mut-witness-target")
+                   VERIF_RS_TARGET=RS_TARGET, VERIF_WITNESS_TARGET=WITNESS_TARGET)
         if c_only and rs_facts:
             env["VERIF_RS_FACTS_DIR"] = rs_facts
             env["VERIF_WITNESS_REPO"] = REPO
@@ -85,8 +87,8 @@ def main():
             missed += 1
         if write:
             json.dump({"status": status, "caught_by": caught}, open(os.path.join(d, "result.json"), "w"), indent=1)
-    shutil.rmtree("/tmp/ts-verif-mut-rs-target", ignore_errors=True)
-    shutil.rmtree("/tmp/ts-verif-mut-witness-target", ignore_errors=True)
+    shutil.rmtree(RS_TARGET, ignore_errors=True)
+    shutil.rmtree(WITNESS_TARGET, ignore_errors=True)
     print("seeded changes: %d, caught %d, missed %d" % (len(rows), sum(1 for r in rows if r["status"] == "CAUGHT"), sum(1 for r in rows if r["status"] == "MISSED")))
     return 1 if missed else 0
 
